@@ -304,11 +304,11 @@ PROP = Prop(
           "slices, permutation equivariance, accuracy = trace/pop. Non-trivial = >=3 classes, a "
           "non-identity order/permutation and an off-diagonal entry."),
     clauses=[
-        Clause("from_predictions", check_pred, strategy=_pred_cases(), quick=500, thorough=2500, fuzz=20000,
+        Clause("from_predictions", check_pred, strategy=_pred_cases(), quick=500, thorough=5000, fuzz=20000,
                quick_shards=2, min_nontrivial=40, doc="entry [i,j] = total weight, class order"),
-        Clause("renderings", check_render, strategy=_render_cases(), quick=300, thorough=1500,
+        Clause("renderings", check_render, strategy=_render_cases(), quick=300, thorough=3000,
                quick_shards=2, min_nontrivial=30, doc="dict / DataFrame / lists give one matrix"),
-        Clause("one_vs_all", check_ova, strategy=_ova_cases(), quick=300, thorough=1500,
+        Clause("one_vs_all", check_ova, strategy=_ova_cases(), quick=300, thorough=3000,
                quick_shards=2, min_nontrivial=30,
                doc="conservation, diag/row/col sums, per-class metrics, as_dict, equivariance"),
     ],
